@@ -756,7 +756,10 @@ func c15RunCase(r *verifkit.Run, env *c15Env, ci int, steps int) {
 			return
 		}
 		r.Eval(1)
-		site := desc
+		site := desc // stable violation site: path/kind, or path/multi for a multi-operation group
+		if len(g.Ops) > 1 {
+			site = g.Path + "/multi"
+		}
 		st := c15Step{Case: ci, Step: step, HS: hs, Group: g, Outcome: out, Before: before, After: after, Trail: slices.Clone(trail)}
 		single := len(g.Ops) == 1
 		if single {
@@ -902,7 +905,7 @@ func TestVerifC15(t *testing.T) {
 	r.Assume("A delete resets the baseline; the re-created row starts a new history. RouteGeneration values stay far from MaxUint64 (the saturating bump is not exercised).")
 	r.Assume("Channel-migration fence commands (set/clear fence, leader transfer) also write this row; they are driven by C17, not here.")
 
-	nCases := r.N(5000, 60000)
+	nCases := r.N(6000, 80000)
 	steps := 30
 	const workers = 4
 	envs := make([]*c15Env, workers)
